@@ -1,6 +1,6 @@
 """C17 (grammar / diagnostics), C20 (layout), C08 (positions), C19 (introspection options), C06 (robustness),
 C10 (well-formed bytecode)."""
-import itertools, json, random, re
+import itertools, json, os, random, re
 from .core import F, casehash
 from .genprog import Gen, strip_markers, str_lit
 from . import interp, tokens
@@ -509,6 +509,41 @@ def check_C19(ctx):
                 if mm and int(mm.group(1)) != ntrace:
                     ctx.violation("trace lists %d instructions, statistics report %s" % (ntrace, mm.group(1)), case, impl=o,
                                   theorem="C19_trace_count", key="trace-count")
+    # the command-line tool: -d / -t / -s leave the program's own lines on stdout, the exit status and the error alone
+    from .core import sh, BUILD, REPO, GOENV, WORK
+    rcb, outb, _ = sh(["go", "build", "-o", os.path.join(BUILD, "bcl"), "./cmd/bcl"], cwd=REPO, env=GOENV, timeout=600)
+    if rcb == 0:
+        clis = []
+        cprogs = {"ok": b'var x = 1\ndef t "n" { f = x + 1\n print "in block" }\nbind t -> struct\nprint x\nprint "done"\n',
+                  "rt": b'print "before"\nprint 1/0\n', "pe": b"print 1 +\n"}
+        for pn, src in cprogs.items():
+            for fl in ([], ["-s"], ["-d"], ["-t"], ["-d", "-s"], ["-t", "-s"], ["-dts"]):
+                clis.append(dict(id="cl-%s-%s" % (pn, "".join(fl)), argv=fl + ["in.bcl"], stdin_hex="", files={"in.bcl": src.hex()}))
+        env = dict(os.environ, VERIF_BCL_BIN=os.path.join(BUILD, "bcl"), VERIF_WORK=WORK)
+        rcc, outc, _ = sh([os.path.join(BUILD, "bclprobe"), "cli"], input="".join(json.dumps(c) + "\n" for c in clis).encode(), env=env, timeout=600)
+        cres = {}
+        for line in outc.splitlines():
+            if line.startswith("{"):
+                r = json.loads(line)
+                cres[r["id"]] = r["real"]
+        for pn in cprogs:
+            base = cres.get("cl-%s-" % pn)
+            if not base:
+                continue
+            plain = bytes.fromhex(base["stdout"]).split(b"\n")
+            for cid, r in cres.items():
+                if not cid.startswith("cl-%s-" % pn) or cid == "cl-%s-" % pn:
+                    continue
+                ctx.count(1, cid)
+                it = iter(bytes.fromhex(r["stdout"]).split(b"\n"))
+                if r["status"] != base["status"] or not all(any(l == x for x in it) for l in plain):
+                    ctx.violation("the command-line tool with %s: the program's own lines are not on stdout in order, or the exit status changed" % cid.split("-", 2)[2],
+                                  dict(program=cprogs[pn].decode(), flags=cid.split("-", 2)[2]),
+                                  impl=dict(status=r["status"], stdout=bytes.fromhex(r["stdout"]).decode("utf8", "replace")[:400],
+                                            stderr=bytes.fromhex(r["stderr"]).decode("utf8", "replace")[:300]),
+                                  model=dict(status=base["status"], stdout=bytes.fromhex(base["stdout"]).decode("utf8", "replace")),
+                                  theorem="C19_print_lines", key="cli-opts")
+        ctx.suite_stats["opts"]["cli_runs"] = len(cres)
     ctx.suite_stats["opts"]["programs"] = len(progs)
     ctx.suite_stats["opts"]["combinations"] = 8
     ctx.sample(dict(program=progs[0].decode("utf8", "replace")[:200], opts=COMBOS))
